@@ -14,6 +14,13 @@
    and PREEMPT r).  They are the extended alphabet [xop] at the end of this file;
    PriorityInheritance.active_boosts is the third component of the state.
 
+   Further public calls on the same objects are in the alphabet because they decide
+   what a later Watchdog.execute does or are other ways to end an operation: the
+   watchdog's three time-outs ([wcfg], part of a case) with time passing ([XTick]),
+   controller.advance ([XAdvance]: G0 -> G1, where starvation is watched), a start
+   with the watchdog_exempt mark ([HStartExempt]), CoordinationSystem.kill_operation
+   ([HKill]), ResourceLock.pop_next_waiter ([XPopWaiter]).
+
    READING.  W is "currently blocked on r" iff W's latest acquisition attempt on
    r returned BLOCKED, W has not obtained r since, W is still active and r has
    been owned ever since (possibly by a new owner after a preemption).  The
@@ -29,7 +36,9 @@ Inductive hop :=
 | HRelease (o r : Z)
 | HComplete (o : Z)
 | HAbort (o : Z)
-| HWatchdog.
+| HWatchdog
+| HKill (o : Z)              (* CoordinationSystem.kill_operation / Watchdog.manual_kill: an abort through another entry point *)
+| HStartExempt (o p : Z).    (* start_operation, then ctx.metadata["watchdog_exempt"] = True: no time-out applies to it *)
 
 Definition to_fop (h : hop) : fop :=
   match h with
@@ -39,6 +48,8 @@ Definition to_fop (h : hop) : fop :=
   | HComplete o => FComplete o
   | HAbort o => FAbort o
   | HWatchdog => FWatchdog
+  | HKill o => FKill o
+  | HStartExempt o p => FStart o p true
   end.
 
 (* ghost: the (waiter, resource) pairs that are currently blocked *)
@@ -217,9 +228,20 @@ Inductive xop :=
 | XRestore (o : Z)                (* ctx = active_operations.get(o); priority_manager.restore_priority(ctx) *)
 | XClearBoosts                    (* priority_manager.clear_all(controller) *)
 | XSetPrio (o p : Z)              (* active_operations.get(o).priority = p *)
-| XSetPreempt (r : Z) (b : bool). (* controller.resources[r].allow_preemption = b *)
+| XSetPreempt (r : Z) (b : bool)  (* controller.resources[r].allow_preemption = b *)
+(* other public calls on the same objects that are no acquisition / release / end of an operation:
+   they decide what a later Watchdog.execute does (time-outs), never the wait-for relation *)
+| XTick (d : Z)                   (* d seconds pass *)
+| XAdvance (o : Z)                (* ctx = active_operations.get(o); controller.advance(ctx) (default checkpoints) *)
+| XPopWaiter (r : Z).             (* controller.resources[r].pop_next_waiter() *)
 
 Definition xstate := (gstate * boosts)%type.
+
+(* a step-API call of C14's model that leaves the ghost relation alone *)
+Definition xfop (fl : flags) (w : wcfg) (xs : xstate) (a : fop) : xstate * list Z :=
+  let '(gs, bs) := xs in
+  let '(s, ws) := gs in
+  let '(s', ret) := fstep fl w s a in (((s', ws), bs), ret).
 
 (* [-1] = the driver did not make the call (operation not active / resource not registered);
    [-7] = out of fuel *)
@@ -247,6 +269,9 @@ Definition xstep (fl : flags) (w : wcfg) (xs : xstate) (a : xop) : xstate * list
       | Some l => (((put_lock s r (l_set_preempt l b), ws), bs), [0])
       | None => (xs, [-1])
       end
+  | XTick d => xfop fl w xs (FTick d)
+  | XAdvance o => xfop fl w xs (FAdvance o)
+  | XPopWaiter r => xfop fl w xs (FPopWaiter r)
   end.
 
 Fixpoint xrun (fl : flags) (w : wcfg) (xs : xstate) (hs : list xop) : xstate :=
@@ -276,10 +301,11 @@ Fixpoint xrun_obs (fl : flags) (w : wcfg) (xs : xstate) (hs : list xop) : list (
         ++ xrun_obs fl w xs' rest
   end.
 
-(* registered resources (id, allow_preemption), deadlock strategy, history *)
-Definition case := (list (Z * bool) * strategy * list xop)%type.
+(* registered resources (id, allow_preemption), watchdog configuration (the three time-outs and the
+   deadlock strategy), history *)
+Definition case := (list (Z * bool) * wcfg * list xop)%type.
 
 Definition run_case_with (fl : flags) (c : case) : list (list Z) :=
-  let '(res, strat, hs) := c in xrun_obs fl (mkW None None None strat) (xinit res) hs.
+  let '(res, w, hs) := c in xrun_obs fl w (xinit res) hs.
 
 Definition run_case (c : case) : list (list Z) := run_case_with current c.
